@@ -259,10 +259,10 @@ func (w *walker) step() {
 					done = true
 				}
 			}
-			if running && !done && !dbNone[t.Name] {
-				v := w.val(r.Intn(6) > 0)
-				if inDB[t.Name] {
-					v = nil
+			if running && !done {
+				v := w.val(true)
+				if r.Intn(4) == 0 || inDB[t.Name] {
+					v = nil // stopped before any objective value was reported: the trial stays incomplete until one arrives
 				}
 				add(7, sim.Action{Op: "earlystop", Key: t.Name, V: v})
 			}
